@@ -241,7 +241,10 @@ type fwdCase struct {
 	Class []string                   `json:"classes"`
 }
 
+var fwdInconclusive, fwdCases int
+
 func runForward(c fwdCase) (viol string) {
+	fwdCases++
 	var mu sync.Mutex
 	var got []ncsclient.ReceiptPayload
 	record := func(r *http.Request) bool {
@@ -314,9 +317,17 @@ func runForward(c fwdCase) (viol string) {
 				break
 			}
 			if time.Now().After(barrier) {
+				queued := len(ch)
 				cancel()
 				srv.Close()
-				return "" // the machine is too busy to decide: inconclusive, never a violation
+				if queued == 0 {
+					// the loop took every submission, the well-formed sentinel included, from the
+					// queue and 20 s later the sentinel has still not reached the service
+					n, _ := count()
+					return fmt.Sprintf("a well-formed receipt was taken from the queue but has not reached the credit service 20 s later (%d of %d earlier submissions arrived)", n, len(want))
+				}
+				fwdInconclusive++
+				return "" // submissions are still queued: the machine is too busy to decide (inconclusive)
 			}
 			time.Sleep(time.Millisecond)
 		}
@@ -374,6 +385,11 @@ func TestC19Forward(t *testing.T) {
 		}
 		return
 	}
+	defer func() {
+		if fwdCases >= 4 && fwdInconclusive*2 > fwdCases && !t.Failed() {
+			t.Fatalf("no verdict: %d of %d cases were inconclusive (submissions still queued after 20 s)", fwdInconclusive, fwdCases)
+		}
+	}()
 	rapid.Check(t, func(rt *rapid.T) {
 		c := fwdCase{Mode: pick(rt, "service", []string{"up", "up", "slow", "drop_after_read", "down"})}
 		n := 1 + uni(rt, "n", 12)
